@@ -418,9 +418,9 @@ class WireEngine(BaseEngine):
     name = 'wire'
 
     def tiers(self, prop):
-        return {'C04': {'quick': 300_000, 'thorough': 15_000_000},
-                'C05': {'quick': 200_000, 'thorough': 8_000_000},
-                'C06': {'quick': 400_000, 'thorough': 20_000_000}}[prop]
+        return {'C04': {'quick': 300_000, 'thorough': 6_000_000},
+                'C05': {'quick': 200_000, 'thorough': 3_000_000},
+                'C06': {'quick': 400_000, 'thorough': 15_000_000}}[prop]
 
     # ---------------- generation
     def gen(self, prop, seed, idx, tier):
